@@ -1,4 +1,5 @@
 import Proofs.BrokerInv
+import Proofs.SessionFresh
 /-
   Proofs/BrokerIso.lean — exact effect of closing a connection (`kill`): backend events, sessions;
   isolation of `recv` (C14), hand-over of the session (C13).  Namespace `BrokerB4`.
@@ -10,7 +11,8 @@ open BState
 
 /-- what the dying dequeuer may still do to its own session: nothing, or take one message (head of
     the stored queue / a member of the first group of the temporary queue); a QoS > 0 message gets
-    the next packet id and is stored as outgoing, a QoS 0 message is lost -/
+    the next unused packet id (`freshID`) and is stored as outgoing — or is lost when no id is left —, a QoS 0
+    message is lost -/
 structure DeqStep (b b' : BSess) : Prop where
   subs : b'.subs = b.subs
   active : b'.active = b.active
@@ -18,8 +20,9 @@ structure DeqStep (b b' : BSess) : Prop where
   queues : (b'.storedQ = b.storedQ ∧ b'.tempQ = b.tempQ) ∨
            (∃ h, b.storedQ = h :: b'.storedQ ∧ b'.tempQ = b.tempQ) ∨
            (∃ e, e ∈ b.tempQ ∧ b'.tempQ = b.tempQ.erase e ∧ b'.storedQ = b.storedQ)
-  sess : b'.sess = b.sess ∨
-         ∃ out, b'.sess = (b.sess.nextID).2.savePacket .outgoing (.publish out false (b.sess.nextID).1)
+  sess : b'.sess = b.sess ∨ b'.sess = (b.sess.freshID).2 ∨
+         ∃ out, (b.sess.freshID).1 ≠ 0 ∧
+           b'.sess = (b.sess.freshID).2.savePacket .outgoing (.publish out false (b.sess.freshID).1)
 
 theorem DeqStep.refl (b : BSess) : DeqStep b b := ⟨rfl, rfl, rfl, Or.inl ⟨rfl, rfl⟩, Or.inl rfl⟩
 
@@ -46,8 +49,12 @@ theorem lastDequeue_detail {s s1 : BState} {c : ConnId} {x : BConn} (h : s1 ∈ 
           split at h
           · refine ⟨b, _, hb, ?_, h⟩
             exact ⟨rfl, rfl, rfl, Or.inr (Or.inl ⟨hd, hq, rfl⟩), Or.inl rfl⟩
-          · refine ⟨b, _, hb, ?_, h⟩
-            exact ⟨rfl, rfl, rfl, Or.inr (Or.inl ⟨hd, hq, rfl⟩), Or.inr ⟨_, rfl⟩⟩
+          · split at h
+            · refine ⟨b, _, hb, ?_, h⟩
+              exact ⟨rfl, rfl, MemorySession.freshID_incoming _, Or.inr (Or.inl ⟨hd, hq, rfl⟩), Or.inr (Or.inl rfl)⟩
+            · rename_i hz
+              refine ⟨b, _, hb, ?_, h⟩
+              exact ⟨rfl, rfl, MemorySession.freshID_incoming _, Or.inr (Or.inl ⟨hd, hq, rfl⟩), Or.inr (Or.inr ⟨_, hz, rfl⟩)⟩
         · simp at h
       · right
         split at h
@@ -58,8 +65,12 @@ theorem lastDequeue_detail {s s1 : BState} {c : ConnId} {x : BConn} (h : s1 ∈ 
           split at he
           · refine ⟨b, _, hb, ?_, he.symm⟩
             exact ⟨rfl, rfl, rfl, Or.inr (Or.inr ⟨e, hem', rfl, rfl⟩), Or.inl rfl⟩
-          · refine ⟨b, _, hb, ?_, he.symm⟩
-            exact ⟨rfl, rfl, rfl, Or.inr (Or.inr ⟨e, hem', rfl, rfl⟩), Or.inr ⟨_, rfl⟩⟩
+          · split at he
+            · refine ⟨b, _, hb, ?_, he.symm⟩
+              exact ⟨rfl, rfl, MemorySession.freshID_incoming _, Or.inr (Or.inr ⟨e, hem', rfl, rfl⟩), Or.inr (Or.inl rfl)⟩
+            · rename_i hz
+              refine ⟨b, _, hb, ?_, he.symm⟩
+              exact ⟨rfl, rfl, MemorySession.freshID_incoming _, Or.inr (Or.inr ⟨e, hem', rfl, rfl⟩), Or.inr (Or.inr ⟨_, hz, rfl⟩)⟩
 
 /-! ### the exact effect of `kill` on a live connection -/
 
